@@ -149,17 +149,19 @@ func (famFuzz) Gen(r *rand.Rand, n int, _ map[string]string) []any {
 				if q == "quantile_over_time" {
 					inner = pick(r, []string{"0.5", "-1", "2", "0"}) + ", " + inner
 				}
-				q = pick(r, []string{"", "sum by (app) (", "topk(2, ", "sort(", "stddev without (v) ("}) + q + "(" + inner + ")"
+				// (k at the edges of int: a size computed from k must not reach make(); mid-range k would really allocate and is left out)
+				q = pick(r, []string{"", "sum by (app) (", "topk(2, ", "sort(", "stddev without (v) (", "topk(9223372036854775807, ", "bottomk(4611686018427387904, ",
+					"topk(0, ", "bottomk(-1, ", "topk(-9223372036854775808, "}) + q + "(" + inner + ")"
 				if strings.Count(q, "(") > strings.Count(q, ")") {
 					q += ")"
 				}
 				q += pick(r, []string{"", " / 0", " % 0", " ^ 0.5", " > bool 0", " or vector(1)", " * on (app) vector(2)"})
 			}
 		}
-		if strings.Contains(q, "ip(") {
+		if strings.Contains(q, "ip") {
 			// the ip() line scanner is quadratic in the length of a run of hexadecimal digits (it terminates: 2-3 s per
-			// evaluation on the 64 KiB lines); those lines are kept for a twentieth of the ip() cases only
-			if r.Intn(20) != 0 {
+			// evaluation on the 64 KiB lines); those lines are kept for one in eighty of the ip() cases only
+			if r.Intn(80) != 0 {
 				in.Data = "nolong"
 			}
 		}
